@@ -207,7 +207,7 @@ def evaluate_case(case):
         use_shown = any(st.ast_type in (_T.ShowSignature, _T.ShowTerm) for st in prg)
         terms_only = not any(st.ast_type == _T.ShowSignature for st in prg)
     fact_preds = voc if case.get("facts_over") == "any" else (inset & voc)
-    insts = case.get("instances") or make_instances(rng, fact_preds, text, case.get("n_inst", 4))
+    insts = case.get("instances") or (list(case.get("extra_instances") or []) + make_instances(rng, fact_preds, text, case.get("n_inst", 4)))
     rec["compared"] = 0
     rec["skipped"] = 0
     budget = float(os.environ.get("VERIF_CASE_SECONDS", "0") or 0) or (25.0 if os.environ.get("VERIF_TIER_EFFECTIVE", "quick") == "quick" else 90.0)
